@@ -19,6 +19,9 @@ class unit:
     def __lt__(self, other):
         return False
 
+    def __hash__(self):
+        return hash('Unit')
+
 
 Unit = unit()
 
@@ -293,7 +296,7 @@ class UnitType(MichelsonType, prim='unit'):
         return False
 
     def __eq__(self, other: 'UnitType'):  # type: ignore
-        return True
+        return isinstance(other, UnitType)
 
     def __hash__(self):
         return hash(Unit)
